@@ -114,6 +114,23 @@ def capitalizeGo : Text → Bool → Text
 
 def capitalize (t : Text) : Text := capitalizeGo t false
 
+/-- `text.upper()`, `text.lower()`, `text.translate(ASCII_TO_WIDE)` over the tabulated alphabet. -/
+def upperText (t : Text) : Text := t.flatMap Gen.upperCp
+def lowerText (t : Text) : Text := t.flatMap Gen.lowerCp
+def wideText (t : Text) : Text := t.flatMap Gen.wideCp
+
+/-- The dict of `process_text_transform`. -/
+def applyTT (tt : TT) (t : Text) : Text :=
+  match tt with
+  | .none => t
+  | .uppercase => upperText t
+  | .lowercase => lowerText t
+  | .capitalize => capitalize t
+  | .fullWidth => wideText t
+
+/-- `text.replace('\u00AD', '')` -/
+def dropSoftHyphens (t : Text) : Text := t.filter (fun c => c != 173)
+
 /-- `is_whitespace` on the text of a `TextBox`: no `\S`. -/
 def allReSpace (t : Text) : Bool := t.all Gen.reSpaceCp
 
